@@ -20,6 +20,13 @@ type Clause struct {
 	Label string // optional clause label "name:" prefix
 }
 
+// CallAssert is an obligation on the arguments the function passes to a named callee:
+//   callsite add asserts n == ...      (callee parameters are in scope by name / argN)
+type CallAssert struct {
+	Callee string
+	Clause *Clause
+}
+
 type LoopSpec struct {
 	Invariants []*Clause
 	Decreases  *Clause
@@ -62,6 +69,8 @@ type Contract struct {
 	Requires []*Clause
 	Ensures  []*Clause
 	Guarantees []*Clause
+	Relies   []*Clause
+	CallAsserts []*CallAssert
 	Assigns  []SExpr
 	HasAssigns bool
 	Loops    map[int]*LoopSpec
@@ -102,7 +111,7 @@ func NewSpecSet() *SpecSet {
 	return &SpecSet{SpecFuncs: map[string]*SpecFunc{}, GhostVars: map[string]*GhostVar{}, AxiomPkg: map[*Clause]string{}}
 }
 
-var keywordRe = regexp.MustCompile(`^(package|func|prop|mode|requires|ensures|guarantee|assigns|loop|let|eval|trusted|pure|maypanic|spec|ghost|axiom|lemma|end|noinline|inline|concurrent|safety|flag|terminates)\b`)
+var keywordRe = regexp.MustCompile(`^(package|func|prop|mode|requires|ensures|guarantee|rely|callsite|assigns|loop|let|eval|trusted|pure|maypanic|spec|ghost|axiom|lemma|end|noinline|inline|concurrent|safety|flag|terminates)\b`)
 
 // ParseSpecFile reads //@ lines from a Go file or a .gospec file.
 // defaultPkg is the package path of the directory for in-repo contract files.
@@ -244,7 +253,7 @@ func (ss *SpecSet) ParseSpecFile(path, defaultPkg string) {
 				cur.Props = append(cur.Props, strings.Fields(rest)...)
 			case "mode":
 				cur.Mode = rest
-			case "requires", "ensures", "guarantee":
+			case "requires", "ensures", "guarantee", "rely":
 				label, body := splitLabel(rest)
 				props, body := splitProps(body)
 				cl := &Clause{Kind: kw, Text: body, Expr: parse(l, body), File: path, Line: l.no, Label: label, Props: props}
@@ -253,6 +262,8 @@ func (ss *SpecSet) ParseSpecFile(path, defaultPkg string) {
 					cur.Requires = append(cur.Requires, cl)
 				case "ensures":
 					cur.Ensures = append(cur.Ensures, cl)
+				case "rely":
+					cur.Relies = append(cur.Relies, cl)
 				default:
 					cur.Guarantees = append(cur.Guarantees, cl)
 				}
@@ -297,6 +308,14 @@ func (ss *SpecSet) ParseSpecFile(path, defaultPkg string) {
 				default:
 					errf(l, "unknown loop clause %q", fs[1])
 				}
+			case "callsite":
+				fs := strings.SplitN(rest, " ", 3)
+				if len(fs) < 3 || fs[1] != "asserts" {
+					errf(l, "expected: callsite <callee> asserts <expr>")
+					continue
+				}
+				label, body := splitLabel(fs[2])
+				cur.CallAsserts = append(cur.CallAsserts, &CallAssert{Callee: fs[0], Clause: &Clause{Kind: "callsite " + fs[0], Text: body, Expr: parse(l, body), File: path, Line: l.no, Label: label}})
 			case "eval":
 				i := strings.Index(rest, "=")
 				if i < 0 {
